@@ -3,3 +3,4 @@ package jpegmeta
 // Bounds of the arbitrary-byte harnesses (overridden per tier by the check driver).
 var verifC07N = 24
 var verifC08N = 14
+var verifC09N = 12
